@@ -37,6 +37,11 @@ pub trait Controller: Send + Sync + 'static {
     /// Non-blocking notification carrying text (e.g. a content hash), delivered synchronously
     /// on the calling thread.
     fn note(&self, site: &'static str, text: &str);
+    /// True while a simulation is driving this process.
+    fn active(&self) -> bool;
+    /// Sync point for a cooperative polling loop: released only after something else in the
+    /// system has made progress since the caller last parked here.
+    fn poll_point(&self, site: &'static str);
 }
 
 static CONTROLLER: RwLock<Option<Arc<dyn Controller>>> = RwLock::new(None);
@@ -126,5 +131,18 @@ pub fn seq(name: &'static str) -> u64 {
 pub fn note(site: &'static str, text: &str) {
     if let Some(c) = controller() {
         c.note(site, text);
+    }
+}
+
+pub fn active() -> bool {
+    match controller() {
+        Some(c) => c.active(),
+        None => false,
+    }
+}
+
+pub fn poll_point(site: &'static str) {
+    if let Some(c) = controller() {
+        c.poll_point(site);
     }
 }
